@@ -190,7 +190,14 @@ fn build_reply(out: &mut Out, rng: &mut Rng, st: &mut Sync, thorough: bool) -> (
         let mo = mined_opts(rng, thorough);
         let idx = st.case.world.new_block(rng, parent, &mo);
         // the parent must be deliverable: either alive, or delivered earlier in this reply
-        blobs.push(block_bytes(&st.case.world.nodes[idx].block));
+        let mut bytes = block_bytes(&st.case.world.nodes[idx].block);
+        if rng.chance(1, 8) {
+            // the heartbeat decodes with `consensus_decode` on a reader: bytes after the block are ignored
+            let n = rng.range(1, 12) as usize;
+            bytes.extend(rng.bytes(n));
+            out.count("block-with-trailing-bytes");
+        }
+        blobs.push(bytes);
         st.undelivered.push(idx);
         last = Some(idx);
     }
@@ -207,7 +214,20 @@ fn build_reply(out: &mut Out, rng: &mut Rng, st: &mut Sync, thorough: bool) -> (
         let pos = rng.below(blobs.len() as u64 + 1) as usize;
         let kind = rng.below(7);
         let bad: Vec<u8> = match kind {
-            0 => { let n = rng.range(0, 120) as usize; rng.bytes(n) }
+            0 => {
+                if rng.chance(1, 3) {
+                    // 80 arbitrary header bytes, a transaction count of zero, then junk: decodes (as an
+                    // empty block) and is then refused by validation
+                    let mut b = rng.bytes(80);
+                    b.push(0);
+                    let n = rng.range(0, 20) as usize;
+                    b.extend(rng.bytes(n));
+                    b
+                } else {
+                    let n = rng.range(0, 120) as usize;
+                    rng.bytes(n)
+                }
+            }
             1 => {
                 // an already present block (duplicate)
                 let k = *rng.pick(&st.case.alive);
